@@ -67,8 +67,8 @@ def _get_unrotated_normals(
 def _get_indices(shape: tuple[int, int, int], backend: Backend) -> AnyArray[np.float32]:
     inds = backend.indices(shape, dtype=np.float32)
     for ind, s in zip(inds, shape):
-        # Note that the shifts in indices must resemble the shifts in fftshift.
-        ind -= math.ceil(s / 2)
-    return backend.fftshift(
+        # Centered indices (zero at s // 2); ifftshift below moves zero to the origin.
+        ind -= s // 2
+    return backend.ifftshift(
         backend.stack(list(inds), axis=-1), axes=(0, 1, 2)
     )  # type: ignore
